@@ -6,6 +6,8 @@ Deciding monitors (boundary): post-conditions on model_description / Parser.pars
   ws-invariance / paren-invariance / fp-invariance   metamorphic shadows of the real code
   no-token-ignored       in an accepted formula without a formula-level `-` / `0`, renaming one variable or level
                          to an unused name changes the model (every one in turn for the DIRECTED formulas)
+                         and deleting the formula's only intercept removal (`0` / `-1` under `+`) changes the model
+                         (known finding D34: a removal inside a parenthesised operand, keyed by where it sits)
 White-box (secondary): scanner span conservation, parser cursor/token conservation.
 """
 import collections
@@ -415,6 +417,93 @@ def judge(text, m, rng, shadows=True, origin="enum"):
             m.violation("no-token-ignored",
                         f"{text!r} and {variant!r} (one variable or level renamed to {fresh!r}) both give {real[1]}",
                         case={**case, "variant": variant, "add_intercept": False}, key="token-ignored")
+    # ... and its only `0` / `-1` removes an intercept: deleting that operand must change the model
+    try:
+        dropped = drop_removal(ref_ast)
+    except Exception:
+        dropped = None
+    if dropped is not None:
+        dropped, where = dropped
+        m.ev("no-token-ignored")
+        variant = G.fp(dropped)
+        with core.shadow():
+            out = real_model(variant, False)
+        m.note("removal-literal-dropped")
+        if out[0] == "ok" and out[1] == real[1]:
+            m.violation("no-token-ignored", f"{text!r} and {variant!r} (the only intercept removal deleted) both give {real[1]}",
+                        case={**case, "variant": variant, "add_intercept": False, "where": where}, key="removal-ignored:" + where)
+
+
+def drop_removal(ast):
+    """The AST with its ONLY intercept removal (`0` or `-1` as an operand of a formula-level `+`) deleted, or None
+    when there is none, more than one, a formula-level binary `-`, more than one literal 1 (`0 + 1` adds the
+    intercept back, so there the removal legitimately has no effect) or a literal 1 inside a group-specific term."""
+    found, ones = [], [0]
+
+    def is_removal(nd):
+        if nd[0] == "lit" and nd[2] is None and not isinstance(nd[1], bool) and nd[1] == 0:
+            return True
+        return nd[0] == "un" and nd[1] == "-" and nd[2][0] == "lit" and nd[2][2] is None and not isinstance(nd[2][1], bool) and nd[2][1] == 1
+
+    def scan(nd, path, in_bar=False):
+        k = nd[0]
+        if is_removal(nd):
+            found.append(path)
+            return
+        if k == "bin":
+            if nd[1] == "-":
+                raise LookupError
+            in_bar = in_bar or nd[1] == "|"
+            scan(nd[2], path + (2,), in_bar); scan(nd[3], path + (3,), in_bar)
+        elif k == "un":
+            scan(nd[2], path + (2,), in_bar)
+        elif k == "lit" and nd[2] is None and not isinstance(nd[1], bool) and nd[1] == 1:
+            if in_bar:
+                raise LookupError  # `1 + 0` / `0 + 1` on the effect side of | is not a documented spelling: not judged
+            ones[0] += 1
+
+    def get(nd, path):
+        for j in path:
+            nd = nd[j]
+        return nd
+
+    try:
+        scan(ast, ())
+    except LookupError:
+        return None
+    if len(found) != 1 or ones[0] > 1 or not found[0]:
+        return None
+    path = found[0]
+    parent = get(ast, path[:-1])
+    if parent[0] != "bin" or parent[1] != "+":
+        return None
+    sibling = parent[3] if path[-1] == 2 else parent[2]
+
+    def rebuild(nd, pth):
+        if not pth:
+            return sibling
+        new_ = list(nd)
+        new_[pth[0]] = rebuild(nd[pth[0]], pth[1:])
+        return tuple(new_)
+
+    # where the removal sits: as the RIGHT operand of a `+` that is itself an operand of another operator (other than
+    # the left side of |, and other than ~) the sub-model `(z + 0)` only carries a flag, which the enclosing operator
+    # drops (known finding D34); everything else is a different mechanism
+    where = "other"
+    leading = path[-1] == 2
+    top = path[:-1]  # the `+` holding the removal; climb its left-associative chain `((0 + a) + b) + c`
+    while top and top[-1] == 2 and get(ast, top[:-1])[0] == "bin" and get(ast, top[:-1])[1] == "+":
+        top = top[:-1]
+    if top:
+        outer_nd = get(ast, top[:-1])
+        outer = outer_nd[1] if outer_nd[0] in ("bin", "un") else None
+        left_of_bar = outer_nd[0] == "bin" and outer == "|" and top[-1] == 2
+        if outer is not None and outer != "~" and not left_of_bar:
+            # trailing / middle `(z + 0)`: lost under every enclosing operator; leading `(0 + z)`: refused by an enclosing
+            # binary `+` (so an accepted one there is NOT the known mechanism), lost under the others
+            if not leading or not (outer_nd[0] == "bin" and outer == "+"):
+                where = "inside-operand"
+    return rebuild(ast, path[:-1]), where
 
 
 def rename_one(ast, rng, fresh, every=False):
@@ -471,6 +560,9 @@ def rename_one(ast, rng, fresh, every=False):
 
 
 DIRECTED = [
+    # an intercept removal inside parentheses (refused on the pinned tree; if accepted it must count), and the ordinary spellings
+    "y ~ x + (0 + z)", "y ~ (0 + z) + x", "y ~ x + (-1 + z)", "y ~ (x + (0 + z) | g)", "y ~ x + (z + 0)", "y ~ 0 + x", "y ~ x + 0", "y ~ -1 + x",
+    "y ~ (0 + x | g)", "y ~ (x + 0 | g)", "y ~ x + (0 + z | g)",
     # a level away from the response
     "y ~ (1 | g[a])", "y ~ (x | g['a'])", "y ~ (1 | h:g[b])", "y ~ (1 | g[a] + h)", "y ~ (f[b] | g)", "y ~ (0 + f['b'] | g)", "y ~ (x:f[b] | g)",
     "y ~ x + f['b']", "y ~ x:f[b]", "y ~ f[b]:x + (1 | g)", "y ~ np.log(x[a])", "y ~ a[b] * c", "y ~ (a + b[c]) ** 2", "y ~ a / b[c]",
